@@ -96,6 +96,23 @@ func (C19) Generate(c *Ctx, r *Rand, index int) *Scenario {
 	rf := r.Fork("faults")
 	switch variant {
 	case "read-fault":
+		if rs.Chance(1, 6) {
+			// the front matter of a text file is split off through a reader of its own
+			g := &DocGen{R: r.Fork("fm"), Plain: true}
+			body := g.Doc(DocID(r, 0, 0)).YAML()
+			text := "---\n" + body + "---\n# Title\n\nsome text\nmore text\n"
+			sc.Files = []File{{Name: "post.md", Data: Bytes(text), Mode: 0644}}
+			mode := Pick(rs, []string{"extract", "process"})
+			sc.Argv = []string{"--front-matter=" + mode, Pick(rs, []string{".", ".a = 1", ".id"}), "post.md"}
+			sc.Meta["expr"] = sc.Argv[1]
+			sc.Meta["keep_flags"] = []any{"--front-matter=" + mode}
+			rp := ReaderPlan{Stream: "fm", Name: "post.md", ErrAt: int64(rf.Intn(len(text) + 1)), Errno: "EIO"}
+			if rf.Chance(2, 3) {
+				rp.Chunks = Pick(rf, [][]int{{1}, {1, 2}, {3}, {2}, {7, 1}})
+			}
+			sc.Plan.Readers = []ReaderPlan{rp}
+			return sc
+		}
 		sc.Files = GenMultiFiles(r.Fork("files"), opts)
 		addOut()
 		finish(e.Combined())
@@ -233,6 +250,13 @@ func (C19) Generate(c *Ctx, r *Rand, index int) *Scenario {
 			fi = InputFormats[0]
 			sc.Files = []File{{Name: Pick(rs, []string{"f1.txt", "f1.md", "f1", "f1.conf"}), Docs: []string{fi.Gen(r.Fork("d0"), id0)}, Mode: 0644}}
 		}
+		if rs.Chance(1, 6) {
+			// stdin first: `-` has no extension, so yaml it is, whatever follows
+			fi = InputFormats[0]
+			g := &DocGen{R: r.Fork("d0"), Plain: true}
+			sc.Files = []File{{Name: "-", Docs: []string{g.Doc(id0).YAML()}, Mode: 0644},
+				{Name: "f2." + Pick(rs, []string{"json", "yaml", "properties", "xml", "csv"}), Docs: []string{GenJSONDoc(r.Fork("d1"), DocID(r, 1, 0), false)}, Mode: 0644}}
+		}
 		sc.Meta["auto"] = fi.Name
 		expr := Pick(rs, []string{".", fi.IDPath})
 		format = fi.Name
@@ -290,9 +314,20 @@ func (C19) Generate(c *Ctx, r *Rand, index int) *Scenario {
 			{"-o=csv", "[[1, 2], [3, [4]]]"}, {"-o=xml", "[1, 2]"}, {"-o=base64", ".c"}, {"-o=uri", ".c"},
 			{"-o=toml", "."}, {"-o=toml", ".d"}, {"-o=toml", ".c"}, {"-o=base64", "."}, {"-o=base64", ".d"}, {"-o=base64", ".a"}, {"-o=uri", "."}, {"-o=uri", ".d"},
 		})
+		if rs.Chance(1, 3) {
+			// scalars that an encoder cannot represent
+			sc.Files[0].Docs[0] += "bad: !!int 12abc\ninf: .inf\nfl: !!float xyz\n"
+			sc.Meta["freeze_data"] = true
+			combo = Pick(rs, [][2]string{{"-o=json", ".bad"}, {"-o=json", ".inf"}, {"-o=json", "."}, {"-o=json", "[.a, .bad]"}, {"-o=json", ".fl"}, {"-o=json", "{\"k\": .inf}"}})
+		}
 		evalAll = rs.Chance(1, 4)
 		if evalAll {
 			argv = append(argv, "ea")
+		}
+		for _, f := range []string{"-C", "-I0", "-N", "-M", "-I4"} {
+			if rs.Chance(1, 5) {
+				argv = append(argv, f)
+			}
 		}
 		sc.Argv = append(argv, combo[0], combo[1], "f1.yaml")
 		sc.Meta["expr"] = combo[1]
